@@ -46,6 +46,8 @@ type Built struct {
 	G     *rapid.Generator[any]
 	Check func(v any) F // contract fields of a drawn value
 	Desc  string
+	// Derive (optional) builds the k-th generator derived from the typed generator behind G (one more combinator method applied to it)
+	Derive func(k int) *rapid.Generator[any]
 }
 
 type AnyG = *rapid.Generator[any]
@@ -559,6 +561,17 @@ func (e *GenEnv) build(s *GenSpec) *Built {
 			f["filterok"] = pred(v)
 			return f
 		}}
+	case "FilterChain": // IntRange(0, 100000) with MinLen Filter calls chained on the typed generator; Derive(k) chains one more, different for every k
+		base := rapid.IntRange(0, 100000)
+		for j := 0; j < optInt(s.MinLen, 0); j++ {
+			m := 2*j + 3 // v%3 != 0, v%5 != 1, v%7 != 2, ...
+			r := j
+			base = base.Filter(func(v int) bool { userCallback(); return v%m != r })
+		}
+		return &Built{G: base.AsAny(), Desc: s.K, Check: func(v any) F { return F{"c": "pred", "ok": true} },
+			Derive: func(k int) *rapid.Generator[any] {
+				return base.Filter(func(v int) bool { return v%(k+2) != 1 }).AsAny()
+			}}
 	case "Map":
 		elem := e.buildLocked(s.Elem)
 		return &Built{G: rapid.Map(elem.G, func(v any) any { userCallback(); return v }), Desc: s.K, Check: elem.Check}
@@ -732,6 +745,30 @@ func buildMake(typ string) *Built {
 		return mkOf[*mkTree]()
 	case "nestedptr":
 		return mkOf[mkNested]()
+	case "nested0":
+		return mkOf[mkNG[int8]]()
+	case "nested1":
+		return mkOf[mkNG[int16]]()
+	case "nested2":
+		return mkOf[mkNG[int32]]()
+	case "nested3":
+		return mkOf[mkNG[int64]]()
+	case "nested4":
+		return mkOf[mkNG[uint8]]()
+	case "nested5":
+		return mkOf[mkNG[uint16]]()
+	case "nested6":
+		return mkOf[mkNG[uint32]]()
+	case "nested7":
+		return mkOf[mkNG[uint64]]()
+	case "nested8":
+		return mkOf[mkNG[string]]()
+	case "nested9":
+		return mkOf[mkNG[bool]]()
+	case "nested10":
+		return mkOf[mkNG[float32]]()
+	case "nested11":
+		return mkOf[mkNG[float64]]()
 	}
 	panic("unknown Make type " + typ)
 }
@@ -757,9 +794,19 @@ func mkLocal2() *Built {
 	return mkOf[rec]()
 }
 
-type mkTree struct {
+type mkTree struct { // (one recursive field only: with two, the expected size of a value is unbounded)
 	V    int8
-	L, R *mkTree
+	Next *mkTree
+	Tags []bool
+}
+
+// a family of distinct types with pointers nested under pointers: whatever rapid.Make sets up lazily per type happens once per process and type
+type mkNG[T any] struct {
+	A *struct{ X *T }
+	B *struct{ Y *T }
+	C **struct{ Z *T }
+	D *[]*T
+	E *map[int8]*T
 }
 
 type mkNested struct {
